@@ -213,10 +213,12 @@ def r16_2(cx):
 
 # ------------------------------------------------------------------------------------------------- R16.3
 def r16_3(cx):
-    b = cx.body("nfa::noncontiguous::Compiler::<'a>::add_dead_state_loop")
-    cs = [b.call_term(bi, t) for bi, t in b.calls(r'NFA::init_full_state$')]
-    ok = len(cs) == 1 and is_named_const(cs[0][2][1], r'NFA::DEAD$') and is_named_const(cs[0][2][2], r'NFA::DEAD$')
-    cx.report('R16.3', b, 'dead-loop', ok, 'every transition of DEAD is initialised to DEAD' if ok else 'add_dead_state_loop = %s' % [tstr(c, 100) for c in cs])
+    from rules.builder import compile_body
+    b = compile_body(cx)
+    cs = [expand_vars(b, b.call_term(bi, t)) for bi, t in b.calls(r'NFA::init_full_state$')]
+    cs = [c for c in cs if is_named_const(peel(c[2][1]), r'NFA::DEAD$')]
+    ok = len(cs) == 1 and is_named_const(peel(cs[0][2][2]), r'NFA::DEAD$')
+    cx.report('R16.3', b, 'dead-loop', ok, 'every transition of DEAD is initialised to DEAD' if ok else 'the DEAD state is initialised by %s' % [tstr(c, 100) for c in cs])
     i = cx.body('nfa::noncontiguous::NFA::init_full_state')
     # a transition for every byte 0..=255 with the given target
     t = ' '.join(tstr(i.call_term(bi, x), 200) for bi, x in i.calls()) + ' '.join(tstr(v, 200) for bi, si, tt, v, s in i.field_stores())
